@@ -39,6 +39,7 @@ func runC02(c *Ctx) {
 	r.Assume("crypto/hmac, crypto/sha512, x/crypto/ripemd160, math/big, crypto/elliptic as documented")
 	r.NotDec("output bytes of HMAC and curve arithmetic")
 
+	pureScan(c, "C02.pure.no-package-state", c.P.Func("pkg/slip10", "DeriveKeyFromPath"), c.P.Func("pkg/slip10", "ExtendedKey.Public"), c.P.Func("pkg/slip10", "ExtendedKey.Fingerprint"), c.P.Func("pkg/slip10/elliptic", "Curve.NewPrivateKey"), c.P.Func("pkg/slip10/elliptic", "PrivateKey.Shift"), c.P.Func("pkg/slip10/elliptic", "PublicKey.Shift"), c.P.Func("pkg/slip10/elliptic", "PrivateKey.Public"), c.P.Func("pkg/slip10/elliptic", "PrivateKey.Bytes"), c.P.Func("pkg/slip10/elliptic", "PublicKey.Bytes"), c.P.Func("pkg/slip10/eddsa", "Seed.Public"), c.P.Func("pkg/slip10/eddsa", "Seed.Shift"), c.P.Func("pkg/slip10/eddsa", "ed25519Curve.NewPrivateKey"))
 	c02Master(c)
 	c02Derive(c)
 	c02Elliptic(c)
@@ -693,6 +694,20 @@ func c02Misc(c *Ctx) {
 				}
 			} else {
 				ok = false
+			}
+		}
+		// error returns only propagate the master / child derivation errors
+		if len(dc) == 1 && len(mk) == 1 {
+			rej := plainEdges(edgesMatching(b, "bin<!=>(ext#1(call<repo/pkg/slip10.NewMasterKey>(p0, p1)), nil)", "bin<!=>(ext#1(call<(*repo/pkg/slip10.ExtendedKey).DeriveChild>(_, _)), nil)"))
+			avoid := ana.ReachableAvoiding(fn, rej)
+			for _, e := range ana.Exits(fn) {
+				if e.Panic {
+					r.Viol("C02.ckd-data.path-reject-closed", c.ipos(e.Instr), "panic in DeriveKeyFromPath")
+					continue
+				}
+				if !b.Of(e.Results[1], e.Instr).Is("nil") {
+					r.Check(!avoid[e.Instr.Block()], "C02.ckd-data.path-reject-closed", c.ipos(e.Instr), "DeriveKeyFromPath fails only when NewMasterKey or a DeriveChild step fails (every path of every length is derivable)")
+				}
 			}
 		}
 		r.Check(ok, "C02.ckd-data.path-fold", c.P.Pos(fn.Pos()), "DeriveKeyFromPath = fold DeriveChild over path, in order, from NewMasterKey(seed, curve) (so deriving p then i equals deriving p‖i)")
